@@ -129,6 +129,28 @@ class Discharger:
     def has(self, facts, *f):
         return tuple(f) in facts
 
+    def _without_sentinel(self, info, name, node, facts, t):
+        """x = next(it, SENTINEL) under a dominating `x is not SENTINEL`: the default is excluded, x is an element of `it`
+        -> the type of x without the sentinel's (unknown) type, or t unchanged"""
+        if not any(a[0] == "any" for a in t):
+            return t
+        for fc in facts:
+            if fc[0] != "cmp":
+                continue
+            if fc[1].startswith("not (%s is " % name) and fc[1].endswith(")"):
+                sn = fc[1][len("not (%s is " % name):-1]
+            elif fc[1].startswith("%s is not " % name):
+                sn = fc[1][len("%s is not " % name):]
+            else:
+                continue
+            d_ = self.dominating_def(info, name, node)
+            from .db import is_private_sentinel
+            if sn.isidentifier() and isinstance(d_, ast.Call) and u(d_.func) == "next" and len(d_.args) == 2 and u(d_.args[1]) == sn \
+                    and sn not in info.f.locals and is_private_sentinel(self.ctx.db, info.f.module.name, sn):
+                # the element type of the iterator: what next(it) alone would give
+                return frozenset(a for a in t if a[0] != "any")
+        return t
+
     # ---- subscripts
     def d_subscript(self, info, s, facts):
         n = s.node
@@ -146,17 +168,9 @@ class Discharger:
             return "constant index into a display"
         if isinstance(base, ast.Constant) and isinstance(base.value, str) and k is not None and -len(base.value) <= k < len(base.value):
             return "constant index into a string literal"
-        # x = next(it, SENTINEL) under a dominating `x is not SENTINEL`: the default is excluded, x is an element of it
-        if isinstance(base, ast.Name) and any(a[0] == "any" for a in t):
-            for fc in facts:
-                if fc[0] == "cmp" and (fc[1].startswith("not (%s is " % bt) and fc[1].endswith(")") or fc[1].startswith("%s is not " % bt)):
-                    sn = fc[1][len("not (%s is " % bt):-1] if fc[1].startswith("not (") else fc[1][len("%s is not " % bt):]
-                    d_ = self.dominating_def(info, bt, n)
-                    from .db import is_private_sentinel
-                    if sn.isidentifier() and isinstance(d_, ast.Call) and u(d_.func) == "next" and len(d_.args) == 2 and u(d_.args[1]) == sn \
-                            and sn not in info.f.locals and is_private_sentinel(self.ctx.db, info.f.module.name, sn):
-                        t = frozenset(a for a in t if a[0] != "any")
-                        kinds = {a[0] for a in t}
+        if isinstance(base, ast.Name):
+            t = self._without_sentinel(info, bt, n, facts, t)
+            kinds = {a[0] for a in t}
         # tuples of known arity
         if k is not None:
             ar = tuple_arities(t, ("notnone", bt) in facts)
@@ -249,6 +263,7 @@ class Discharger:
                 d = self.dominating_def(info, val.id, p)
                 if d is not None:
                     t = info.type_of(d)
+                t = self._without_sentinel(info, val.id, p, facts, t)
             ar = tuple_arities(t, ("notnone", u(val)) in facts)
             if ar == {n}:
                 return "value is a tuple of arity %d on every path" % n
